@@ -7,7 +7,7 @@
     combine and merge: proved over all schedules (Inv_threads_combine.v, Inv_threads_merge.v).
     [at_most_one_err n fins] is the property's own quantifier ("at most one member failing"). *)
 From CB Require Import Threads ThreadSpec ThreadsFine Inv_threads_combine Inv_threads_merge Inv_threads_fine
-  Inv_threads_combine_fine.
+  Inv_threads_combine_fine Inv_threads_total.
 
 Theorem C18_combine_no_panic (n : nat) (qs : nat -> list val) (fins : nat -> final) :
   1 <= n -> forall s, cb_reach n qs fins s ->
@@ -221,3 +221,44 @@ Theorem C18_combine_fine_driver_run n qs fins nth sch fuel : 1 <= n ->
    combine_check n qs fins (rev (cbs_tr (st_base s))) = []).
 Proof. exact (@combine_fine_driver_run n qs fins nth sch fuel). Qed.
 Print Assumptions C18_combine_fine_driver_run.
+
+(** ** "... and completion is delivered": no deadlock, no livelock.  Every run of the driver - ANY schedule
+    prefix, then the remaining threads one at a time - finishes every thread within an explicit number of
+    steps (combine's [rcu] loop retries only when another thread changed [vals] in between).  Together with
+    the [_driver_run] theorems above: the check of the finished trace is empty, unconditionally. *)
+
+Theorem C18_merge_run_total n qs fins nth sch fuel : fuel >= merge_fuel n qs nth ->
+  let s := run_full (mg_step n) mg_finished nth sch fuel (mg_init n qs fins) in
+  forall t, t < nth -> mg_finished s t = true.
+Proof. exact (@merge_run_full_total n qs fins nth sch fuel). Qed.
+Print Assumptions C18_merge_run_total.
+
+Theorem C18_merge_fine_run_total n qs fins nth sch fuel : fuel >= merge_fine_fuel n qs nth ->
+  let s := run_full (mf_step true n) mf_finished nth sch fuel (mf_init true n qs fins) in
+  forall t, t < nth -> mf_finished s t = true.
+Proof. exact (@merge_fine_run_full_total n qs fins nth sch fuel). Qed.
+Print Assumptions C18_merge_fine_run_total.
+
+Theorem C18_combine_run_total n qs fins nth sch fuel : fuel >= combine_fuel n qs nth ->
+  let s := run_full (cb_step true n) cb_finished nth sch fuel (cb_init n qs fins) in
+  forall t, t < nth -> cb_finished s t = true.
+Proof. exact (@combine_run_full_total n qs fins nth sch fuel). Qed.
+Print Assumptions C18_combine_run_total.
+
+Theorem C18_combine_fine_run_total n qs fins nth sch fuel : fuel >= combine_fine_fuel n qs nth ->
+  let s := run_full (stut_step (cb_step true n)) (stut_finished cb_finished) nth sch fuel
+             (stut_init (cb_init n qs fins)) in
+  forall t, t < nth -> stut_finished cb_finished s t = true.
+Proof. exact (@combine_fine_run_full_total n qs fins nth sch fuel). Qed.
+Print Assumptions C18_combine_fine_run_total.
+
+(** the two halves together, for merge!: whatever the schedule, with enough fuel the run ends and passes the
+    whole check (n member threads, at most one failing) *)
+Theorem C18_merge_always_passes n qs fins sch fuel :
+  1 <= n -> at_most_one_err n fins -> fuel >= merge_fuel n qs n ->
+  merge_check n qs fins (rev (mgs_tr (run_full (mg_step n) mg_finished n sch fuel (mg_init n qs fins)))) = [].
+Proof.
+  intros Hn Ha Hf. apply (@merge_driver_final n qs fins n sch fuel Hn Ha).
+  exact (@merge_run_full_total n qs fins n sch fuel Hf).
+Qed.
+Print Assumptions C18_merge_always_passes.
